@@ -91,7 +91,19 @@ func runC05(c *an.Ctx, p *an.Prog, thorough bool) {
 			ncb, nenc := 0, 0
 			var cb *an.Term
 			closed := false
+			armed, blockedSince := -1, ""
 			for i, e := range s.Events {
+				// a write deadline armed on the connection, and what may take arbitrarily long after it was armed
+				if e.Kind == "call" && !e.Deferred && (strings.HasSuffix(e.Callee, "net.Conn.SetDeadline") || strings.HasSuffix(e.Callee, "net.Conn.SetWriteDeadline")) && len(e.Args) == 2 && e.Args[0].K == s.T(hc.Params[1]).K {
+					if e.Args[1].Op == "const" || e.Args[1].Op == "zero" {
+						armed, blockedSince = -1, "" // the zero time disarms
+					} else {
+						armed, blockedSince = i, ""
+					}
+				}
+				if armed >= 0 && e.Kind == "call" && !e.Deferred && (strings.HasPrefix(e.Callee, "dynamic ") || e.Callee == "(*"+saslPkg+".Request).Decode") {
+					blockedSince = e.Callee
+				}
 				switch {
 				case e.Kind == "call" && strings.HasPrefix(e.Callee, "dynamic "):
 					ncb++
@@ -110,6 +122,9 @@ func runC05(c *an.Ctx, p *an.Prog, thorough bool) {
 					}
 				case e.Kind == "call" && e.Callee == "(*"+saslPkg+".Response).Encode" && !e.Deferred:
 					nenc++
+					if armed >= 0 && blockedSince != "" {
+						b2 = append(b2, "the reply is written under a deadline that was armed before "+blockedSince+" ran: when the client stalls or the callback is slow the deadline has expired and no reply is sent at all (path "+s.BlockPath()+")")
+					}
 					if e.Args[1].K != s.T(hc.Params[1]).K {
 						b2 = append(b2, "reply is written to "+e.Args[1].K+", not to the connection")
 					}
@@ -295,8 +310,8 @@ func c055(c *an.Ctx, p *an.Prog, rule string) {
 		}
 		c.Check(len(bad) == 0 && n >= 2, rule, fnKey(enc)+"|vocabulary", p.Pos(enc.Pos()), "\"OK\" iff Result, else \"NO\"; optional \" \"+message", strings.Join(uniqS(bad), "; "))
 	}
-	// reader
-	{
+	// reader(s)
+	for _, dec := range decodeEntryPoints(c, p, rule, "Response") {
 		var bad []string
 		nT, nF := 0, 0
 		an.EnumPaths(dec, nil, nil, func(s *an.PathState) {
@@ -306,6 +321,18 @@ func c055(c *an.Ctx, p *an.Prog, rule string) {
 			}
 			if k, _ := exitKind(s); k == "error" {
 				return
+			}
+			// the reply text is the single part delivered by the frame decoder, error checked
+			okFrame := false
+			for _, e := range s.Events {
+				if e.Kind == "call" && e.Callee == saslPkg+".decodeLengthEncodedStrings" && callErrNilSingle(s, e.Res) {
+					if els, ok := sliceElems(s, e.Args[1]); ok && len(els) == 1 || e.Args[1].Op == "make" && e.Args[1].Args[0].IsConst("1") {
+						okFrame = true
+					}
+				}
+			}
+			if !okFrame {
+				bad = append(bad, "a reply is accepted that was not delivered by decodeLengthEncodedStrings(reader, one part)==nil (path "+s.BlockPath()+")")
 			}
 			// final value of r.Result on this path
 			var res *an.Term
@@ -786,7 +813,6 @@ func c131dec(c *an.Ctx, p *an.Prog) {
 
 func c132(c *an.Ctx, p *an.Prog) {
 	enc := p.Method("/sasl", "Request", "Encode")
-	dec := p.Method("/sasl", "Request", "Decode")
 	if need(c, "C13.2", enc, "sasl.(*Request).Encode") {
 		var bad []string
 		n := 0
@@ -820,7 +846,7 @@ func c132(c *an.Ctx, p *an.Prog) {
 		}
 		c.Check(len(bad) == 0 && n > 0, "C13.2", fnKey(enc)+"|field-limits", p.Pos(enc.Pos()), "each of the four fields is refused exactly when len > 256", strings.Join(uniqS(bad), "; "))
 	}
-	if need(c, "C13.2", dec, "sasl.(*Request).Decode") {
+	for _, dec := range decodeEntryPoints(c, p, "C13.2", "Request") {
 		var bad []string
 		n := 0
 		an.EnumPaths(dec, nil, nil, func(s *an.PathState) {
@@ -1011,4 +1037,63 @@ func blockReaches(a, b *ssa.BasicBlock) bool {
 		return false
 	}
 	return walk(a)
+}
+
+// decodeEntryPoints returns the methods of the message type through which bytes become field values and that do the
+// decoding themselves: Decode, and Unmarshal unless it merely delegates to Decode (then a delegation obligation is
+// recorded instead). Every function returned is subject to the decode rules of the type, so a second, differently
+// built decoder behind Unmarshal cannot escape them.
+func decodeEntryPoints(c *an.Ctx, p *an.Prog, rule, typ string) []*ssa.Function {
+	dec := p.Method("/sasl", typ, "Decode")
+	un := p.Method("/sasl", typ, "Unmarshal")
+	var own []*ssa.Function
+	if need(c, rule, dec, "sasl.(*"+typ+").Decode") {
+		own = append(own, dec)
+	}
+	if !need(c, rule, un, "sasl.(*"+typ+").Unmarshal") || dec == nil {
+		return own
+	}
+	decName := "(*" + saslPkg + "." + typ + ").Decode"
+	deleg, n := true, 0
+	why := ""
+	er := an.EnumPaths(un, nil, nil, func(s *an.PathState) {
+		n++
+		recv := s.T(un.Params[0])
+		var call *an.Event
+		cnt := 0
+		for i := range s.Events {
+			e := &s.Events[i]
+			if e.Kind == "call" && e.Callee == decName && !e.Deferred {
+				cnt++
+				call = e
+			}
+			if e.Kind == "store" && e.Args[0].Op == "fieldaddr" && e.Args[0].Args[0].K == recv.K {
+				if !(e.Args[0].Aux == "Result" && e.Args[1].IsConst("false")) {
+					deleg, why = false, "it assigns "+e.Args[0].Aux+" itself"
+				}
+			}
+		}
+		if cnt != 1 || call == nil {
+			deleg, why = false, fmt.Sprintf("%d calls of Decode on path %s", cnt, s.BlockPath())
+			return
+		}
+		rd := call.Args[1].StripConv()
+		whole := (rd.IsCallTo("bytes.NewBuffer") || rd.IsCallTo("bytes.NewReader")) && func() bool { cc, _ := rd.CallOf(); return cc.Args[0].K == s.T(un.Params[1]).K }()
+		ret := lastReturn(s)
+		switch {
+		case call.Args[0].K != recv.K:
+			deleg, why = false, "Decode is invoked on another object"
+		case !whole:
+			deleg, why = false, "Decode does not read the whole data argument: "+rd.K
+		case ret == nil || ret.Args[0].K != call.Res.K:
+			deleg, why = false, "Decode's result is not what is returned"
+		}
+	})
+	if deleg && n > 0 && er.Complete {
+		c.OK(rule, fnKey(un)+"|delegates-to-Decode", p.Pos(un.Pos()), "Unmarshal(data) is Decode(bytes.NewBuffer/NewReader(data)) on the same object and returns its result: the decode rules of Decode cover it")
+		return own
+	}
+	// a decoder of its own: it has to satisfy the same rules (reported under its own key)
+	c.OK(rule, fnKey(un)+"|own-decoder", p.Pos(un.Pos()), "Unmarshal does not delegate to Decode ("+why+"): the decode rules are applied to it as well")
+	return append(own, un)
 }
